@@ -204,7 +204,10 @@ parser! {
         // comment
         rule asm_comment() = ";" [_]* new_line()
 
-        rule c_comment() = "/*" (!("*/" / "\n" / "\r") [_])* "*/" new_line()
+        rule c_block() = "/*" (!("*/" / "\n" / "\r") [_])* "*/"
+
+        // one or more block comments, then the end of the line or a comment that runs to it
+        rule c_comment() = (c_block() space())+ (asm_comment() / c_another_comment() / new_line())
 
         rule c_another_comment() = "//" [_]* new_line()
 
